@@ -17,7 +17,7 @@ from ..loader import AnalysisError, unparse, call_name, attr_chain, stmt_of
 from ..dataflow import target_names, mutations_in
 from ..solver_model import Sweep, solver_function, PARTITIONS
 
-TECHNIQUE = ('static analysis: derived-field coherence (cache invalidation on every path), branch-outcome facts for trace-only statements on flattened methods and their write sets, memo / done-marker data members (reset dominance), call-shape lint of every Logger call, use-kind classification and write discipline of the global object counter')
+TECHNIQUE = ('static analysis: derived-field coherence (cache invalidation on every path), branch-outcome facts for trace-only statements on flattened methods and their write sets, memo / done-marker data members (reset dominance), call-shape lint of every Logger call, use-kind classification and write discipline of the global object counter; handler / raise-class agreement for log registration; dominance of the holder installation over reads of the old holder')
 EXPLANATION = (
     'Finds the cached derived field of the solver (variable list rebuilt only when empty) and requires every assignment of '
     'its source (the parser) to be followed on every path by an invalidation; computes the write set of every trace-guarded '
@@ -290,6 +290,12 @@ def run(prog, check):
              'what this solve sets up depends on what was solved before' % stale[0].line,
              'one solver object re-parsed and re-solved with different blocks')
     # the holder is filled from the variable list (every variable gets its k=0 point)
+    # reading the results is not part of the history either: no series accessor mutates a stored series (alias analysis of C16.R2)
+    from .C16 import discover_accessors as _disc, check_accessor as _chk_acc, Summaries as _Summ
+    acc_ = _disc(prog)
+    summ_ = _Summ(prog)
+    for f_acc in acc_['series']:
+        _chk_acc(prog, check, f_acc, 'series', summ_, pid_rules=(None, 'C17.R4'))
     # ---- R5 ----------------------------------------------------------------------------------------
     global_writes = {}
     for f in prog.all_functions():
